@@ -178,6 +178,8 @@ pub struct Exports {
     pub types: Vec<String>,
     pub key_types: Vec<String>,
     pub int_consts: Vec<String>,
+    /// key newtypes whose target is another key newtype of the same schema (chains)
+    pub key_chains: Vec<String>,
 }
 
 #[derive(Debug, Clone, Copy, PartialEq, Eq)]
@@ -854,7 +856,21 @@ impl<'a, 'b> Gen<'a, 'b> {
             }
             _ => {
                 let pre = self.prelude(true, true);
-                let (ty, is_key) = if self.t.chance(90) {
+                // newtype chains that cross a schema boundary: a newtype over an imported key
+                // newtype that is itself a newtype over a type of ITS schema (the generator has to
+                // resolve every hop in the schema the hop's name belongs to)
+                let ext_chains: Vec<(String, String)> = self
+                    .imported
+                    .iter()
+                    .flat_map(|i| {
+                        let e = &self.cfg.importable[*i];
+                        e.key_chains.iter().map(|n| (e.schema.clone(), n.clone())).collect::<Vec<_>>()
+                    })
+                    .collect();
+                let (ty, is_key) = if !ext_chains.is_empty() && self.cfg.noise == 0 && self.t.chance(100) {
+                    let (s, n) = ext_chains[self.t.below(ext_chains.len())].clone();
+                    (Ty::Ref(Some(s), n), true)
+                } else if self.t.chance(90) {
                     let k = self.key_ty();
                     let is_key = matches!(k, Ty::Kw(_)) || matches!(k, Ty::Ref(..));
                     (k, is_key && self.cfg.noise == 0)
@@ -862,6 +878,9 @@ impl<'a, 'b> Gen<'a, 'b> {
                     (self.top_ty(), false)
                 };
                 let name = self.def_name(TYPE_NAMES, ODD_TYPE_NAMES);
+                if is_key && matches!(&ty, Ty::Ref(None, _)) && safe_type_ref(&name) {
+                    self.exports.key_chains.push(name.clone());
+                }
                 if safe_type_ref(&name) {
                     self.types.push(name.clone());
                     self.exports.types.push(name.clone());
@@ -943,6 +962,58 @@ impl<'a, 'b> Gen<'a, 'b> {
         out
     }
 
+    /// Compile-and-run batches only: a dependency now and then ends with a chain of key newtypes
+    /// (`newtype Inner = <key type>; newtype Outer = Inner;`), and a schema that imports such a
+    /// dependency now and then ends with a newtype over the imported chain plus a struct that uses
+    /// it as map and set key. The Rust generator has to follow the chain hop by hop, each hop in
+    /// the schema its name belongs to, to know that the newtype is a key type.
+    fn cross_schema_key_chain(&mut self, defs: &mut Vec<Def>) {
+        if self.cfg.schema_index > 0 && self.t.chance(150) {
+            let prim = *self.t.pick(KEY_PRIMS);
+            let inner = self.def_name(TYPE_NAMES, ODD_TYPE_NAMES);
+            let outer = self.def_name(TYPE_NAMES, ODD_TYPE_NAMES);
+            if safe_type_ref(&inner) && safe_type_ref(&outer) {
+                for n in [&inner, &outer] {
+                    self.types.push(n.clone());
+                    self.exports.types.push(n.clone());
+                    self.key_types.push(n.clone());
+                    self.exports.key_types.push(n.clone());
+                }
+                self.exports.key_chains.push(outer.clone());
+                defs.push(Def::Newtype { pre: vec![], name: inner.clone(), ty: Ty::Kw(prim) });
+                defs.push(Def::Newtype { pre: vec![], name: outer, ty: Ty::Ref(None, inner) });
+            }
+        }
+        let ext_chains: Vec<(String, String)> = self
+            .imported
+            .iter()
+            .flat_map(|i| {
+                let e = &self.cfg.importable[*i];
+                e.key_chains.iter().map(|n| (e.schema.clone(), n.clone())).collect::<Vec<_>>()
+            })
+            .collect();
+        if !ext_chains.is_empty() && self.t.chance(170) {
+            let (s, n) = ext_chains[self.t.below(ext_chains.len())].clone();
+            let h = self.def_name(TYPE_NAMES, ODD_TYPE_NAMES);
+            let user = self.def_name(TYPE_NAMES, ODD_TYPE_NAMES);
+            if safe_type_ref(&h) && safe_type_ref(&user) {
+                self.types.push(h.clone());
+                self.exports.types.push(h.clone());
+                self.key_types.push(h.clone());
+                self.exports.key_types.push(h.clone());
+                self.exports.key_chains.push(h.clone());
+                defs.push(Def::Newtype { pre: vec![], name: h.clone(), ty: Ty::Ref(Some(s), n) });
+                let fields = vec![
+                    Field { pre: vec![], required: true, name: "by_key".into(), id: "1".into(), ty: Ty::Map(Box::new(Ty::Ref(None, h.clone())), Box::new(Ty::Kw("u32"))) },
+                    Field { pre: vec![], required: false, name: "keys".into(), id: "2".into(), ty: Ty::Gen1("set", Box::new(Ty::Ref(None, h))) },
+                ];
+                self.types.push(user.clone());
+                self.exports.types.push(user.clone());
+                defs.push(Def::Struct { pre: vec![], name: user, body: StructBody { inner: vec![], fields, fallback: None } });
+            }
+        }
+    }
+
     pub fn schema(&mut self, name: &str) -> Model {
         self.exports.schema = name.to_string();
         let header = self.header();
@@ -951,6 +1022,9 @@ impl<'a, 'b> Gen<'a, 'b> {
         let mut defs = vec![];
         for _ in 0..n {
             defs.push(self.def());
+        }
+        if self.cfg.rich && self.cfg.noise == 0 {
+            self.cross_schema_key_chain(&mut defs);
         }
         Model { header, imports, defs }
     }
